@@ -34,6 +34,8 @@ SubstrateOps(T) ==
     \* caller-supplied ids that collide across classes
     \cup {[op |-> "AddNode", name |-> "n3", site |-> "S1", ntype |-> "Server", rp |-> <<>>, cid |-> "X"]}
     \cup {[op |-> "AddNodeService", n |-> n, name |-> "ns2", nstype |-> "MPLS", cid |-> "X"] : n \in Nodes(T)}
+    \* ... also deep inside a composite: the LAST interface of a catalogue component is handed the id X
+    \cup {[op |-> "AddComponent", n |-> n, name |-> "c2", model |-> m, ifcid |-> "X"] : n \in Nodes(T), m \in {"nic2", "nic1"}}
     \cup {[op |-> "RemoveNodeService", n |-> n, name |-> "ns1"] : n \in Nodes(T)}
     \cup {[op |-> "AddInterface", s |-> s, name |-> i, itype |-> "TrunkPort"] : s \in NodeSvcs(T), i \in {"i1", "i2", "!x"}}
     \cup {[op |-> "AddLink", name |-> l, ltype |-> lt, ifs |-> ifs] : l \in {"l1"}, lt \in {"Patch", "L2Path"},
